@@ -11,7 +11,7 @@ SomeConfigs == {[consts |-> cs, params |-> ps] :
 
 \* Dead code (seventh round of seeded changes, C02g): bodies that open with a block -- `{ goto y; var a; z: x = a; y: }` has
 \* 7 items and two label names: statements after an unconditional goto, declarations among them, used after a later label
-DeadShape == Len(body) = 0 \/ body[1].k = "O"
+DeadShape == Len(body) = 0 \/ (body[1].k = "O" /\ (Len(body) >= 2 => body[2].k = "G"))      \* `{ goto ...`: dead from the start
 
 EmitCase == phase = "end" =>
     PrintT(<<"CASE", ToJson([b |-> Str(body), consts |-> cfg.consts, params |-> cfg.params,
